@@ -55,9 +55,22 @@ def committed_goal_case(rep, drv, rnd, i):
         rep.nontriv(scen.norm([n for n, h, b in chosen] + atoms))
 
 
+def cleared_case(rep, drv, rnd, i):
+    """the builtins are part of every engine state the API can reach: also after clear()"""
+    g = gen.ProgGen(rnd, knobs(rnd))
+    prog = g.program()
+    qs = [('query', name, ('all',), args) for name, args in g.queries(3)]
+    ops = [('load', 'overwrite', prog)] + qs[:1] + [('clear',)] + qs[:1] + [('load', 'overwrite', prog)] + qs
+    rep.count('builtins-after-clear')
+    if scen.three_way(rep, drv, ops, 'case %d after clear' % i) == 'ok':
+        rep.nontriv(scen.norm([scen.ops_json(ops[:1]), [q[1] for q in qs]]))
+
+
 def case(rep, drv, rnd, i, tier):
     if i % 8 == 7:
         return committed_goal_case(rep, drv, rnd, i)
+    if i % 16 == 3:
+        return cleared_case(rep, drv, rnd, i)
     return progcheck.case(rep, drv, rnd, i, tier)
 
 
@@ -70,7 +83,7 @@ def run(tier):
                         'bound earlier in the body or through a chain of variables, extra arguments, one goal term called twice), '
                         'once/1, findall/3, = and \\= (incl. same-name structures of different arity) with goals that have 0-3 '
                         'solutions; one case in eight: meta-calls on goals whose answers come from clauses ending in a cut, with a '
-                        'second definition chained behind; any exception escaping a query is a violation; non-trivial = the '
+                        'second definition chained behind; one case in sixteen: the same programs after clear() and a reload; any exception escaping a query is a violation; non-trivial = the '
                         'reference yields >= 1 answer; distinct = distinct (program, query)')
 
 
